@@ -132,7 +132,13 @@ def rand_q(rnd, nops, mode):
         elif k == "delete":
             ops.append(("delete", rnd.choice([max(0, issued - rnd.randint(0, 12)), rnd.randint(-2, issued + 2)]) if mode == "sm" else 0))
         elif k == "get":
-            ops.append(("get", rnd.randint(-1 if mode == "sm" else 0, issued + 1)))
+            if mode == "sm" and rnd.random() < 0.15:
+                ops.append(("get", rnd.choice([2 ** 63 - 1, 2 ** 62, 2 ** 32, 2 ** 32 + issued, -2 ** 63, -2 ** 62, 2 ** 63 - 1 - rnd.randint(0, 9)])))
+            elif mode == "eq" and rnd.random() < 0.25:
+                # positions far beyond the end: with a non-zero front offset, position + offset wraps around
+                ops.append(("get", rnd.choice([2 ** 64 - 1, 2 ** 64 - 1 - rnd.randint(0, 14), 2 ** 63, 2 ** 32, 2 ** 32 + rnd.randint(0, 5), 2 ** 64 - issued - 1])))
+            else:
+                ops.append(("get", rnd.randint(-1 if mode == "sm" else 0, issued + 1)))
         else:
             ops.append(("getmin", 0))
     return ops
